@@ -239,7 +239,7 @@ fn ref_date_field(r: &mut Cur, kind: u8, y: i32, m: u32, d: u32, wd: u32) {
     }
 }
 
-//@ unit c04_date_field prop=C04,C03 chunks=range:0:21 quick=all unwind=12 mem=5 timeout=1500 stubs=crate::util::try_format=>crate::verif_support::stub_try_format,crate::common::julian2date=>crate::verif_support::ghost_julian2date bound="Date: every real date 0001-01-01..9999-12-31 (as a triple), picture = the single date token given by the parameter (Y/YY/YYY/YYYY, MM, DD, DDD, D, W, WW, DAY and MONTH in six letter styles): output bytes equal the reference rendering"
+//@ unit c04_date_field prop=C04,C03 chunks=range:0:21 quick=all unwind=12 mem=3 timeout=1500 stubs=crate::util::try_format=>crate::verif_support::stub_try_format,crate::common::julian2date=>crate::verif_support::ghost_julian2date bound="Date: every real date 0001-01-01..9999-12-31 (as a triple), picture = the single date token given by the parameter (Y/YY/YYY/YYYY, MM, DD, DDD, D, W, WW, DAY and MONTH in six letter styles): output bytes equal the reference rendering"
 fn c04_date_field(kind: u8) {
     let (x, (y, m, d)) = ghost_date(1, 9999);
     let wd = o_weekday(x.days());
@@ -312,7 +312,7 @@ fn ref_time_field(r: &mut Cur, kind: u8, h: u32, mi: u32, s: u32, us: u32) {
     }
 }
 
-//@ unit c04_time_field prop=C04,C03 chunks=range:0:14/range:0:17 quick=all unwind=12 mem=5 timeout=1500/10800 stubs=crate::util::try_format=>crate::verif_support::stub_try_format,crate::time::Time::extract=>crate::format::verif_h_fmt_fields::stub_time_extract bound="Time: every time of day (h, m, s, us as fields - all 86.4e9 microseconds), picture = the single time token given by the parameter (HH24, HH12, MI, SS, AM/am/A.M./a.m., FF, FF1..FF6; FF7..FF9 - a float division by 0.1/0.01/0.001 - in the thorough tier only): output bytes equal the reference rendering (fractions truncated)"
+//@ unit c04_time_field prop=C04,C03 chunks=range:0:14/range:0:17 quick=all unwind=12 mem=3 timeout=1500/10800 stubs=crate::util::try_format=>crate::verif_support::stub_try_format,crate::time::Time::extract=>crate::format::verif_h_fmt_fields::stub_time_extract bound="Time: every time of day (h, m, s, us as fields - all 86.4e9 microseconds), picture = the single time token given by the parameter (HH24, HH12, MI, SS, AM/am/A.M./a.m., FF, FF1..FF6; FF7..FF9 - a float division by 0.1/0.01/0.001 - in the thorough tier only): output bytes equal the reference rendering (fractions truncated)"
 fn c04_time_field(kind: u8) {
     let (t, (h, mi, s, us)) = ghost_time();
     let fmt = one_field(time_field(kind));
@@ -328,7 +328,7 @@ fn c04_time_field(kind: u8) {
     std::mem::forget(fmt);
 }
 
-//@ unit c04_ts_pair prop=C04,C03 chunks=tuples:3,0;5,8;16,2;6,12;9,1;7,5;13,3 quick=first:2 unwind=12 mem=8 timeout=2400 stubs=crate::util::try_format=>crate::verif_support::stub_try_format,crate::common::julian2date=>crate::verif_support::ghost_julian2date,crate::time::Time::extract=>crate::format::verif_h_fmt_fields::stub_time_extract,crate::timestamp::Timestamp::extract=>crate::verif_support::stub_ts_extract,crate::timestamp::Timestamp::date=>crate::verif_support::stub_ts_date,crate::timestamp::Timestamp::time=>crate::verif_support::stub_ts_time bound="Timestamp: every real date x every time of day, picture = date token (1st parameter), a symbolic punctuation or blank run of 1..=3, time token (2nd parameter): the output is the concatenation in picture order"
+//@ unit c04_ts_pair prop=C04,C03 chunks=tuples:3,0;5,8;16,2;6,12;9,1;7,5;13,3 quick=first:1 unwind=12 mem=8 timeout=2400 stubs=crate::util::try_format=>crate::verif_support::stub_try_format,crate::common::julian2date=>crate::verif_support::ghost_julian2date,crate::time::Time::extract=>crate::format::verif_h_fmt_fields::stub_time_extract,crate::timestamp::Timestamp::extract=>crate::verif_support::stub_ts_extract,crate::timestamp::Timestamp::date=>crate::verif_support::stub_ts_date,crate::timestamp::Timestamp::time=>crate::verif_support::stub_ts_time bound="Timestamp: every real date x every time of day, picture = date token (1st parameter), a symbolic punctuation or blank run of 1..=3, time token (2nd parameter): the output is the concatenation in picture order"
 fn c04_ts_pair(dk: u8, tk: u8) {
     let (x, (y, m, d)) = ghost_date(1, 9999);
     let (t, (h, mi, s, us)) = ghost_time();
